@@ -270,6 +270,9 @@ func validatingWalkOpt(w *World, fn *ssa.Function, isSource func(ssa.Value) bool
 			if definitelyNonNilErr(ev) || knownNonNilAt(ev, b) {
 				continue
 			}
+			if emptyListExits(fn, vl.S)[b] && freshEmptySlice(ret.Results[0]) {
+				continue // the empty list: a fresh empty slice is what the copy of zero elements is
+			}
 			if !keepSlice && !onlyValueOrNil(ret.Results[0], result, map[ssa.Value]bool{}) {
 				return WalkReport{Why: "the success return does not return the slice the elements were copied into", Pos: ret}
 			}
@@ -368,6 +371,69 @@ func validatingLoop(w *World, fn *ssa.Function, loop *SliceLoop) (ssa.CallInstru
 	return call, WalkReport{OK: true}
 }
 
+// freshEmptySlice: make([]T, 0) in either of its SSA forms (a MakeSlice of
+// constant length 0, or a slice of a new zero-length array).
+func freshEmptySlice(v ssa.Value) bool {
+	switch x := v.(type) {
+	case *ssa.MakeSlice:
+		k, isK := constInt(x.Len)
+		return isK && k == 0
+	case *ssa.Slice:
+		al, ok := x.X.(*ssa.Alloc)
+		if !ok {
+			return false
+		}
+		arr, ok := al.Type().Underlying().(*types.Pointer).Elem().Underlying().(*types.Array)
+		return ok && arr.Len() == 0
+	}
+	return false
+}
+
+// emptyListExits: the blocks reached only under a test that the walked list
+// is empty (len(S) == 0 and its equivalent forms): a walk would run zero
+// iterations there, so returning what the empty walk returns is the same.
+func emptyListExits(fn *ssa.Function, S ssa.Value) map[*ssa.BasicBlock]bool {
+	emptyExit := map[*ssa.BasicBlock]bool{}
+	for _, b := range fn.Blocks {
+		if len(b.Instrs) == 0 {
+			continue
+		}
+		ifi, ok := b.Instrs[len(b.Instrs)-1].(*ssa.If)
+		if !ok {
+			continue
+		}
+		cmp, ok := ifi.Cond.(*ssa.BinOp)
+		if !ok {
+			continue
+		}
+		lo, isLen := lenOperand(cmp.X)
+		k, isK := constInt(cmp.Y)
+		if !isLen || !isK || !sameSlice(lo, S) {
+			continue
+		}
+		emptySucc := -1
+		switch {
+		case cmp.Op == token.EQL && k == 0, cmp.Op == token.LSS && k == 1, cmp.Op == token.LEQ && k == 0:
+			emptySucc = 0
+		case cmp.Op == token.NEQ && k == 0, cmp.Op == token.GTR && k == 0, cmp.Op == token.GEQ && k == 1:
+			emptySucc = 1
+		}
+		if emptySucc < 0 {
+			continue
+		}
+		t := b.Succs[emptySucc]
+		if len(t.Preds) != 1 {
+			continue
+		}
+		for _, d := range fn.Blocks {
+			if t.Dominates(d) {
+				emptyExit[d] = true
+			}
+		}
+	}
+	return emptyExit
+}
+
 // successOnlyThrough: a return of fn that may carry a nil error is reached
 // only through the loop's normal exit (the header finding the index at the
 // end). A loop may also be left early (return inside the body, break): such a
@@ -393,6 +459,7 @@ func successOnlyThrough(fn *ssa.Function, loop *SliceLoop, ei int) WalkReport {
 		}
 	}
 	dfs(fn.Blocks[0])
+	emptyExit := emptyListExits(fn, loop.S)
 	nonNil := func(v ssa.Value, at *ssa.BasicBlock) bool {
 		return !isNilConst(v) && (definitelyNonNilErr(v) || knownNonNilAt(v, at))
 	}
@@ -441,6 +508,9 @@ func successOnlyThrough(fn *ssa.Function, loop *SliceLoop, ei int) WalkReport {
 		}
 		if !early[b] {
 			continue // only through the normal exit
+		}
+		if emptyExit[b] && isNilConst(ev) {
+			continue // the list is empty here: the walk has nothing to validate
 		}
 		// reachable early: the error returned must be a variable that early
 		// exits leave non-nil (or this return is taken only when it is nil)
